@@ -123,6 +123,8 @@ package replicator
 //@   ensures exist ==> deref(r.queue) == Q0 && (forall h V_cid_Cid :: (h in r.tasks) == old(h in r.tasks) && r.tasks[h] == old(r.tasks[h]))
 //@   ensures !exist ==> len(deref(r.queue)) == len(Q0) + 1 && itemHash(deref(r.queue)[len(Q0)]) == hash && (hash in r.tasks) && r.tasks[hash] == stateAdded
 //@   ensures !exist ==> (forall j Int :: 0 <= j && j < len(Q0) ==> deref(r.queue)[j] == Q0[j]) && (forall h V_cid_Cid :: h != hash ==> (h in r.tasks) == old(h in r.tasks) && r.tasks[h] == old(r.tasks[h]))
+//@   ensures !exist ==> deref(r.queue)[len(Q0)] != nil
+//@   modifies mapof(r.tasks), cell(r.queue, "Slice<Iface>")
 //@ func (*replicator).AddEntryToQueue
 //@   props C11 C10
 //@   flag nilcalls
@@ -132,6 +134,7 @@ package replicator
 //@   ensures exist == (old(hash in r.tasks) || inLog(stLog(r.store), hash))
 //@   ensures exist ==> deref(r.queue) == Q0 && (forall h V_cid_Cid :: (h in r.tasks) == old(h in r.tasks) && r.tasks[h] == old(r.tasks[h]))
 //@   ensures !exist ==> len(deref(r.queue)) == len(Q0) + 1 && itemHash(deref(r.queue)[len(Q0)]) == hash && (hash in r.tasks) && r.tasks[hash] == stateAdded
+//@   modifies mapof(r.tasks), cell(r.queue, "Slice<Iface>")
 
 // isIdle: true only when no task is added or fetching.
 //@ func (*replicator).isIdle
@@ -184,13 +187,21 @@ package replicator
 //@   ensures err != nil ==> semHeld(r.sem) == old(semHeld(r.sem))
 //@   modifies r.taskInProgress, mapof(r.tasks), cell(r.queue, "Slice<Iface>"), r.buffer, evCount(r.emitters.evtLoadEnd), evLast(r.emitters.evtLoadEnd), semHeld(r.sem)
 
-// processItems (fetch + queue the ancestors): body not verified here (goroutines, dependency fetch); only its
-// frame and the ghost record of its outcome are assumed.
-//@ ghost field lastItemsErr(Int) Iface
+// processItems (fetch + queue the ancestors): it reports success only if every item's fetch succeeded — a
+// failure is never swallowed (the caller records the item as fetched on success, for good). nfail counts the
+// processHash calls of this run that failed. The processes spawned for the ancestors are asserted to find a
+// queued item (the hash was just queued).
 //@ func (*replicator).processItems
-//@   trusted
-//@   ensures lastItemsErr(r) == result
-//@   modifies r.buffer, "MD:V_cid_Cid:Int", "MV:V_cid_Cid:Int", "MC:V_cid_Cid:Int", "C:Slice_Iface", lastItemsErr(r)
+//@   props C11 C10
+//@   flag nilcalls
+//@   requires wfr(r)
+//@   requires forall j Int :: 0 <= j && j < len(items) ==> items[j] != nil
+//@   requires forall j Int :: 0 <= j && j < len(deref(r.queue)) ==> deref(r.queue)[j] != nil
+//@   count @ after call r.processHash#1 when $r1 != nil: nfail
+//@   loop 1 invariant wfr(r) && nfail == 0 && (forall j Int :: 0 <= j && j < len(deref(r.queue)) ==> deref(r.queue)[j] != nil)
+//@   loop 1.1 invariant wfr(r) && nfail == 0 && (forall j Int :: 0 <= j && j < len(deref(r.queue)) ==> deref(r.queue)[j] != nil)
+//@   ensures (result == nil) == (nfail == 0)
+//@   modifies "F:replicator.replicator.buffer", "MD:V_cid_Cid:Int", "MV:V_cid_Cid:Int", "MC:V_cid_Cid:Int", "C:Slice_Iface", "G:lastFetched", "G:fetchCalls"
 
 // processOne: the item taken from the queue is marked fetched only when its fetch succeeded.
 //@ func (*replicator).processOne
@@ -200,10 +211,11 @@ package replicator
 //@   requires len(deref(r.queue)) > 0 && (forall j Int :: 0 <= j && j < len(deref(r.queue)) ==> deref(r.queue)[j] != nil)
 //@   ghost Q0 := deref(r.queue)
 //@   ghost H0 := semHeld(r.sem)
-//@   assert? @ before call r.processEntryDone#1: fetched == (lastItemsErr(r) == nil) && e != nil
+//@   let @ after call r.processItems#1: perr Iface := $r0
+//@   assert? @ before call r.processEntryDone#1: fetched == (perr == nil) && e != nil
 //@   ensures result != nil ==> len(deref(r.queue)) == len(Q0) - 1 && !(itemHash(Q0[0]) in r.tasks)
-//@   ensures result == nil && lastItemsErr(r) != nil ==> !(itemHash(Q0[0]) in r.tasks)
-//@   ensures result == nil && lastItemsErr(r) == nil ==> (itemHash(Q0[0]) in r.tasks) && r.tasks[itemHash(Q0[0])] == stateFetched
+//@   ensures result == nil && perr != nil ==> !(itemHash(Q0[0]) in r.tasks)
+//@   ensures result == nil && perr == nil ==> (itemHash(Q0[0]) in r.tasks) && r.tasks[itemHash(Q0[0])] == stateFetched
 //@   ensures semHeld(r.sem) == H0
 
 // ---- C04 C10 C11: one fetched hash = one buffered log, fetched by content address for this database ----
@@ -228,4 +240,4 @@ package replicator
 //@   ensures len(r.buffer) == len(B0) + 1 ==> result1 == nil && logLen(r.buffer[len(B0)]) > 0 && prov(r.buffer[len(B0)]) == 1 && logID(r.buffer[len(B0)]) == logID(stLog(r.store)) && acOf(r.buffer[len(B0)]) == stAC(r.store)
 //@   ensures @C04 @C03 @C09 @C12 len(r.buffer) == len(B0) + 1 ==> (forall j Int :: 0 <= j && j < len(valsOf(r.buffer[len(B0)])) ==> ptr(valsOf(r.buffer[len(B0)])[j], "entry.Entry").LogID == logID(r.buffer[len(B0)]))
 //@   ensures @C11 @C10 result1 == nil ==> logLen(lastFetched(0)) > 0
-//@   modifies r.buffer, lastFetched(0)
+//@   modifies r.buffer, lastFetched(0), fetchCalls(0)
